@@ -12,20 +12,20 @@ TRUSTED_BASE = [
     'RunHandlers, handler.run, decorateHandlerPublisher, decorateHandlerSubscriber, addHandlerContext, handleMessage, publishProducedMessages) and router_context.go and tied to them by this check',
     'the subscriber environment is a scripted fan-out subscriber (every subscription of a topic on a subscriber object receives its own copy); middlewares and decorators are the harness\'s tagging wrappers '
     '(enter/exit marks, optional appended message; a publisher decorator calls its inner publisher even when that is a nil interface, as an embedding decorator does)',
-    'hook router.wiring.handler_removed (one added line after delete(r.handlers, name)) + hookrt park rule: used only to hold the teardown goroutine of a stopped handler while its name is re-added; '
+    'hooks router.wiring.handler_removed (after delete(r.handlers, name)), router.wiring.before_snapshot / snapshot_taken (around the goroutine\'s copy of r.middlewares) + hookrt park rules: used only to hold a goroutine at that point while the program goes on; '
     'a rule that times out just means the window was not forced (counted in the evidence), never a verdict',
     'internal.StructName is exercised (Stringer and %T paths, empty names) but not modelled: type names enter the model as the strings the harness computed for its own collaborator types; '
     '"message.disabledPublisher" and "<nil>" are fixed constants of the model',
 ]
 ASSUMPTIONS = [
-    'a registration counts as "before the handler is started" when it completed before Run/RunHandlers was called; the handler goroutine copies r.middlewares asynchronously after RunHandlers returned '
-    '(router.go l.456-458), so the harness lets every newly started handler process one message before it registers anything else; registrations racing with that copy are outside the statement '
-    '(Router.AddMiddleware takes no lock at all)',
-    'RunHandlers walks r.handlers in Go map order; the model takes registration order. The only observable difference: WHICH waiting handler keeps the publisher decorators of an attempt that failed in a '
-    'subscriber-decorator constructor when several handlers wait; the generator lets subscriber-decorator constructors fail only while exactly one handler waits (publisher-decorator failures are unrestricted). '
-    'A failing constructor at the very first Run is not generated (Run cannot be retried: "router is already running")',
-    'as coded (stated by theorems, not repaired): r.middlewares entries are never removed, so a handler added again under the name of a stopped one inherits that name\'s handler-level middlewares '
-    '(C09_registrations_never_removed); a RunHandlers attempt that fails in a subscriber decorator leaves the publisher decorated, so after the retry the publisher decorators act twice (model field residue)',
+    'linearisation point of a start (theorem C09_snapshot_linearisation, no longer an assumption): RunHandlers returns before the new handler\'s goroutine copies r.middlewares; the copy under middlewaresLock is the point P: '
+    'registered before P = in the chain, after P = not. Sequential programs use OStart = "the copy follows at once" (C09_start_is_async_then_snap): there the harness lets every newly started handler process one message '
+    'before it registers anything else; the "window" programs hold the goroutines before P with hook router.wiring.before_snapshot, register in the window and release them one by one (startasync / snap ops). '
+    'That the registration calls and the copy are atomic with respect to each other rests on middlewaresLock (Handler.AddMiddleware always took it; Router.AddMiddleware takes it since fix b87685c: before, -race reported the data race '
+    'and a variadic batch could be copied in part); mutexes are not modelled below that',
+    'RunHandlers walks r.handlers in Go map order; the model takes registration order. Since a failed attempt leaves nothing behind (fix 29438e7, C09_retry_leaves_no_residue) the order is not observable. '
+    'A failing constructor at the very first Run is not generated (Run cannot be retried: "router is already running"); Handler.Stop of a handler whose copy is still pending and deliveries to it are not generated / not modelled',
+    'as coded (stated by theorem, not repaired): r.middlewares entries are never removed, so a handler added again under the name of a stopped one inherits that name\'s handler-level middlewares (C09_registrations_never_removed)',
     'per-copy independence: the copies of concurrently delivered messages are handled by independent handleMessage instances; the harness runs 1..4 deliveries x fan-out copies in flight behind a barrier and compares every per-copy trace',
 ]
 
@@ -65,6 +65,8 @@ def op_term(p, o):
     if k == 'addsubdec': return '(OAddSubDec %s %d%%nat)' % (n(o['id']), o.get('fails', 0))
     if k == 'stop': return '(OStop %s)' % n(ids[o.get('name', '')])
     if k == 'start': return 'OStart'
+    if k == 'startasync': return 'OStartAsync'
+    if k == 'snap': return '(OSnap %s)' % n(ids[o.get('name', '')])
     if k == 'deliver':
         d = o['d']
         outs = nl(d.get('outs') or [])
@@ -86,6 +88,8 @@ def describe(p, tab=None):
         elif k == 'addhmw': ops.append(('[in window] ' if o.get('win') else '') + 'Handler(%r).AddMiddleware(mw%d%s)' % (o.get('name', ''), o['id'], ' appends msg %d' % (100 + o['id']) if o.get('app') else ''))
         elif k == 'addmw': ops.append('Router.AddMiddleware(mw%d%s)' % (o['id'], ' appends msg %d' % (100 + o['id']) if o.get('app') else ''))
         elif k == 'start': ops.append('Run / RunHandlers' + (' (a decorator constructor fails: returns an error)' if o.get('fail') else ''))
+        elif k == 'startasync': ops.append('Run / RunHandlers returns; the goroutines of %s are held before their copy of r.middlewares' % o.get('names'))
+        elif k == 'snap': ops.append('handler %r copies r.middlewares now' % o.get('name', ''))
         elif k == 'stop': ops.append('Handler(%r).Stop()%s' % (o.get('name', ''), ' — the following [in window] ops run as soon as the name is free, before Stopped() closes' if o.get('early') else ', wait for Stopped()'))
         else: ops.append('%s(%d)%s' % (k, o['id'], ' constructor fails %d time(s)' % o['fails'] if o.get('fails') else ''))
     return dict(kind=p['kind'], subscriber_types=p['subty'], publisher_types=p['pubty'], program=ops,
@@ -96,12 +100,13 @@ def stats(res, p):
     hs = [o['h'] for o in p['ops'] if o['k'] == 'addhandler' and not o.get('dup')]
     res.count('programs=%s' % p['kind'])
     res.count('handlers=%d' % len(hs))
-    res.count('starts=%d' % sum(1 for o in p['ops'] if o['k'] == 'start'))
+    res.count('starts=%d' % sum(1 for o in p['ops'] if o['k'] in ('start', 'startasync')))
     regs = sum(1 for o in p['ops'] if o['k'] in ('addmw', 'addhmw'))
     res.count('middleware_registrations=%s' % (regs if regs < 7 else '7-12' if regs < 13 else '13+'))
     res.count('pub_decorators=%d' % min(5, sum(1 for o in p['ops'] if o['k'] == 'addpubdec')))
     res.count('sub_decorators=%d' % min(5, sum(1 for o in p['ops'] if o['k'] == 'addsubdec')))
     if any(o.get('dup') for o in p['ops']): res.count('duplicate_handler_name_attempts')
+    if p.get('snaps'): res.count('programs_registering_between_RunHandlers_return_and_the_copy_of_r.middlewares'); res.count('handler_goroutines_really_held_before_their_copy', p['snaps'])
     nstop = sum(1 for o in p['ops'] if o['k'] == 'stop')
     if nstop: res.count('programs_with_Handler.Stop'); res.count('handler_stops', nstop)
     if any(o.get('win') and o['k'] == 'addhandler' for o in p['ops']): res.count('names_re-added_inside_the_teardown_window(generated)')
@@ -145,6 +150,8 @@ def shape(p):
         elif k == 'addpubdec': s.append('P%d' % o.get('fails', 0))
         elif k == 'addsubdec': s.append('S%d' % o.get('fails', 0))
         elif k == 'start': s.append('!x' if o.get('fail') else '!')
+        elif k == 'startasync': s.append('!~')
+        elif k == 'snap': s.append('~' + o.get('name', ''))
         elif k == 'stop': s.append(('Z' if o.get('early') else 'z') + o.get('name', ''))
     return tuple(s)
 
